@@ -248,6 +248,113 @@ func runFastPaths(args []string) {
 				}
 			}
 		}
+		// Exhaustive sweep for the searchers that replace the automata (auxiliary; regexp is the arbiter): every haystack of length
+		// <= 6 over up to five bytes the record's haystacks use (ASCII only, the first five in byte order).  The restart logic of
+		// these searchers (where to resume after a failed attempt) only shows on inputs in which a failed attempt has consumed the
+		// start of the real match - far longer than the enumerated haystacks.
+		if os.Getenv("VH_DEBUG_SWEEP") != "" {
+			fmt.Fprintf(os.Stderr, "REC %s strat=%s fast=%v comp=%v cdfa=%v hash=%d\n", pat, strat, isFast, comp != nil, cdfa != nil, contentHash([]byte(pat))%2)
+		}
+		if (ccs != nil || comp != nil || cdfa != nil || bd != nil || ali != nil || isFast) {
+			var seen [128]bool
+			var alpha []byte
+			for hi := range rec.Hs {
+				for _, c := range core.HayBytes(rec.Hs[hi].H) {
+					if c < 128 && !seen[c] {
+						seen[c] = true
+					}
+				}
+			}
+			// the bytes the pattern itself mentions first, then the other bytes of its haystacks
+			var inAlpha [128]bool
+			var walk func(a *core.AST)
+			walk = func(a *core.AST) {
+				if a == nil {
+					return
+				}
+				ids := append([]int{}, a.S...)
+				if a.Op == "lit" {
+					ids = append(ids, a.C)
+				}
+				for _, id := range ids {
+					if id >= 1 && id <= len(core.Syms) && len(core.Syms[id-1].B) == 1 {
+						if c := core.Syms[id-1].B[0]; c < 128 && !inAlpha[c] && len(alpha) < 5 {
+							inAlpha[c] = true
+							alpha = append(alpha, byte(c))
+						}
+					}
+				}
+				walk(a.A)
+				walk(a.B)
+			}
+			walk(rec.Re)
+			for c := 127; c >= 0 && len(alpha) < 5; c-- {
+				if seen[c] && !inAlpha[c] {
+					inAlpha[c] = true
+					alpha = append(alpha, byte(c))
+				}
+			}
+			if os.Getenv("VH_DEBUG_SWEEP") != "" {
+				fmt.Fprintf(os.Stderr, "SWEEP %s alpha=%q cdfa=%v comp=%v strat=%s\n", pat, alpha, cdfa != nil, comp != nil, strat)
+			}
+			if len(alpha) >= 2 {
+				buf := make([]byte, 0, 6)
+				var rec6 func(n int)
+				nsw := 0
+				rec6 = func(n int) {
+					if n >= 5 { // lengths 5 and 6 only: shorter ones are in the enumerated universe
+						b := buf
+						hx = core.Hex(b)
+						nsw++
+						want := std.FindIndex(b)
+						wok := want != nil
+						cmp := func(api string, s, e int, ok bool) {
+							if ok != wok || (ok && (s != want[0] || e != want[1])) {
+								fail(api, "sweep", fmt.Sprint(want), fmt.Sprintf("[%d %d %v]", s, e, ok))
+							}
+						}
+						guard("Engine.FindIndicesAt", "sweep", func() {
+							s, e, ok := eng.FindIndicesAt(b, 0)
+							cmp("Engine.FindIndicesAt", s, e, ok)
+						})
+						guard("Engine.IsMatch", "sweep", func() {
+							if got := eng.IsMatch(b); got != wok {
+								fail("Engine.IsMatch", "sweep", fmt.Sprint(wok), fmt.Sprint(got))
+							}
+						})
+						if comp != nil {
+							guard("Searcher.Composite.SearchAt", "sweep", func() {
+								s, e, ok := comp.SearchAt(b, 0)
+								cmp("Searcher.Composite.SearchAt", s, e, ok)
+							})
+						}
+						if cdfa != nil {
+							guard("Searcher.CompositeDFA.SearchAt", "sweep", func() {
+								s, e, ok := cdfa.SearchAt(b, 0)
+								cmp("Searcher.CompositeDFA.SearchAt", s, e, ok)
+							})
+						}
+						if ccs != nil {
+							guard("Searcher.CharClass.SearchAt", "sweep", func() {
+								s, e, ok := ccs.SearchAt(b, 0)
+								cmp("Searcher.CharClass.SearchAt", s, e, ok)
+							})
+						}
+					}
+					if n == 6 {
+						return
+					}
+					for _, c := range alpha {
+						buf = append(buf, c)
+						rec6(n + 1)
+						buf = buf[:len(buf)-1]
+					}
+				}
+				rec6(0)
+				cases += nsw
+				rep.API("sweep:haystacks", nsw)
+			}
+		}
 		rep.Add(1, cases, calls, nontriv, strat)
 		if rec.I%37 == 1 && len(rec.Hs) > 0 {
 			rep.Sample(map[string]any{"pattern": pat, "strategy": strat, "direct": map[string]bool{"charclass": ccs != nil, "composite": comp != nil,
